@@ -53,14 +53,21 @@
      5 C03_section_roundtrip   parse_body of the lines section_lines writes returns, in
                                order, items whose meta are the expected ones (0..n items,
                                duplicates included) — for the four standard sections;
+       C03_blank_mnemonic_line / C03_section_roundtrip_blanks
+                               the same with items whose mnemonic is empty, on lines with no
+                               further period (conf_blank: unit, value, description
+                               conformant and period-free): the stripped line ".UNIT VALUE :
+                               DESCR" reads back with the empty name (the optional leading
+                               period of the name pattern is given back after the dot-free
+                               star finds no closing period; Proofs/BlankMnemonicProofs.v);
      6 C03_standardize_idem / C03_standardize_cases   standardize_value is idempotent and
                                changes only None (-> "" without unit) and empty/None values of
                                items with a unit (-> 0): the documented permitted difference.
 
    NOT PROVED HERE (covered by the correspondence runs of the harness only):
-     * blank mnemonics ("lines with no further period"): conf_mnem requires a non-empty
-       mnemonic; the line ".UNIT VALUE : DESCR" goes through the back-off of the name pattern
-       which C04_parse_all does not cover;
+     * blank mnemonics on lines that DO contain a further period (".M  1.5 : d" parses with
+       name "M  1"): excluded by the property text; mnemonics made of blanks only (they read
+       back as the empty mnemonic);
      * the whole-file statement (write then read, including STRT/STOP/STEP refresh, unit
        alignment and ~Other): the section-level theorem is about section_lines/parse_body;
        the composition with find_sections and the data section is tied by correspondence;
@@ -74,7 +81,7 @@
 From Coq Require Import List NArith ZArith Bool String.
 Import ListNotations.
 Require Import PyStr Regex NumLit Num NumSpec HeaderLine Tables SectionParse Writer.
-Require Import HeaderLineSpec ItemsBindProofs OrderTableProofs WriteHeaderProofs.
+Require Import HeaderLineSpec BlankMnemonicProofs ItemsBindProofs OrderTableProofs WriteHeaderProofs.
 Open Scope string_scope. Open Scope list_scope. Open Scope N_scope.
 
 (* 1. the widths of a section cover every one of its items *)
@@ -187,6 +194,43 @@ Theorem C03_section_roundtrip : forall fstr v k c ie cc tr items, is_std k = tru
     map meta items' = map (fun it => meta (expected_item fstr k c it)) items.
 Proof. exact section_roundtrip. Qed.
 
+(* 5a. blank mnemonic, no further period: the stripped line reads back with the empty name *)
+Theorem C03_blank_mnemonic_line : forall fstr k o lw mw it,
+  conf_blank fstr k o it = true -> covers fstr o lw mw it ->
+  strip (format_item fstr o lw mw it) =
+    layout_blank (i_unit it) (pad2 fstr o mw it) (rhs_text fstr o it) [32]
+                 (pad4 (tail_text fstr o it)) (tail_text fstr o it) [] /\
+  read_header_line (strip (format_item fstr o lw mw it)) (is_curves_of k) (is_param_of k)
+  = Some (mkhl [] (i_unit it) (rhs_text fstr o it) (tail_text fstr o it)).
+Proof.
+  intros fstr k o lw mw it Hc Hv. split.
+  - exact (strip_format_blank fstr k o lw mw it Hc).
+  - exact (blank_stripped_line_roundtrip fstr k o lw mw it Hc Hv).
+Qed.
+
+(* the general grammar fact behind it (C04 style): a line that starts with its only period *)
+Theorem C03_blank_name_parse : forall (u p2 v p3 p4 d p5 : list N) (ic ip : bool),
+  blanks p2 && blanks p3 && blanks p4 && blanks p5 = true ->
+  conf_unit u = true -> conf_text v = true -> conf_text d = true ->
+  value_set_off p2 v = true ->
+  in_str 46 u = false -> in_str 46 v = false -> in_str 46 d = false ->
+  sect_ok ic ip (layout_blank u p2 v p3 p4 d p5) u v p3 p4 d = true ->
+  read_header_line (layout_blank u p2 v p3 p4 d p5) ic ip = Some (mkhl [] u v d).
+Proof. exact blank_name_parse. Qed.
+
+(* 5b. sections in which every item is conformant or has a blank mnemonic and no period *)
+Theorem C03_section_roundtrip_blanks : forall fstr v k c ie cc tr items, is_std k = true ->
+  (forall it, In it items ->
+     (conf_item fstr k (sec_ord v (sect_table_name k) it) (sec_lw items)
+                (sec_mw fstr (sec_ord v (sect_table_name k)) items) it = true /\
+      starts_ok cc it = true)
+     \/ (conf_blank fstr k (sec_ord v (sect_table_name k) it) it = true /\ in_str 46 cc = false)) ->
+  exists lines items',
+    section_lines fstr v (sect_table_name k) items = Some lines /\
+    parse_body v k c ie cc tr lines [] = POk items' /\
+    map meta items' = map (fun it => meta (expected_item fstr k c it)) items.
+Proof. exact section_roundtrip_blanks. Qed.
+
 (* 6. standardize_value *)
 Theorem C03_standardize_idem : forall fzero val u,
   standardize fzero (standardize fzero val u) u = standardize fzero val u.
@@ -266,6 +310,40 @@ Example C03_ex_param_read :
   end = map meta ex_params.
 Proof. vm_compute. reflexivity. Qed.
 
+(* blank mnemonics (twice) between named items, ~Parameter *)
+Definition ex_blank : list hitem :=
+  [ new_item (s2l "RUN") [] (VInt 1) (s2l "run");
+    new_item [] (s2l "M") (VStr (s2l "12:30 x")) (s2l "no name: here");
+    new_item [] [] (VStr []) [];
+    new_item (s2l "LONGNAME") (s2l "OHMM") (VStr (s2l "a")) (s2l "b") ].
+Example C03_ex_blank_hyps :
+  forall it, In it ex_blank ->
+     (conf_item ex_fstr KParameter (sec_ord V20 (sect_table_name KParameter) it) (sec_lw ex_blank)
+                (sec_mw ex_fstr (sec_ord V20 (sect_table_name KParameter)) ex_blank) it = true /\
+      starts_ok (s2l "#") it = true)
+     \/ (conf_blank ex_fstr KParameter (sec_ord V20 (sect_table_name KParameter) it) it = true /\
+         in_str 46 (s2l "#") = false).
+Proof.
+  intros it Hin. cbn [In ex_blank] in Hin.
+  destruct Hin as [<-|Hin]; [left; split; vm_compute; reflexivity|].
+  destruct Hin as [<-|Hin]; [right; split; vm_compute; reflexivity|].
+  destruct Hin as [<-|Hin]; [right; split; vm_compute; reflexivity|].
+  destruct Hin as [<-|Hin]; [left; split; vm_compute; reflexivity|]. destruct Hin.
+Qed.
+Example C03_ex_blank_read :
+  option_map (map l2s) (section_lines ex_fstr V20 (s2l "Parameter") ex_blank)
+  = Some [ "RUN     .        1 : run"; "        .M 12:30 x : no name: here"; "        .          : ";
+           "LONGNAME.OHMM    a : b" ]%string /\
+  match section_lines ex_fstr V20 (s2l "Parameter") ex_blank with
+  | Some lines =>
+      match parse_body V20 KParameter CasePreserve false (s2l "#") false lines [] with
+      | POk items' => map meta items'
+      | PErr _ => []
+      end
+  | None => []
+  end = map meta ex_blank.
+Proof. vm_compute. split; reflexivity. Qed.
+
 Example C03_ex_standardize :
   standardize (fun _ => false) (VStr []) (s2l "M") = VInt 0 /\
   standardize (fun _ => false) VNone [] = VStr [] /\
@@ -289,5 +367,8 @@ Print Assumptions C03_value_number_string.
 Print Assumptions C03_value_roundtrip.
 Print Assumptions C03_expected_meta.
 Print Assumptions C03_section_roundtrip.
+Print Assumptions C03_blank_mnemonic_line.
+Print Assumptions C03_blank_name_parse.
+Print Assumptions C03_section_roundtrip_blanks.
 Print Assumptions C03_standardize_idem.
 Print Assumptions C03_standardize_cases.
